@@ -4,9 +4,9 @@ CONSTANTS
   Ident = {"a", "b"}
   MaxAtt = 2
   Weak = {}
-  AVals = {"good", "zero", "N", "missing", "replay"}
+  AVals = {"good", "zero", "N", "missing", "replay", "replay_same"}
   Proofs = {"right", "wrong", "missing", "nilkey"}
-  Seals = {"this", "other", "zero", "random", "nilkey"}
+  Seals = {"this", "other", "zero", "random", "nilkey", "recorded"}
   Bodies = {"genuine", "badsig", "mismatch", "badtlv", "smallorder"}
   Shapes = {"ok", "tagflip", "ctflip", "short", "empty"}
 INVARIANTS TypeOK KeyNeedsProof
